@@ -12,7 +12,7 @@
    with spans correct up to whitespace ([xvalid_span], [parse_sound_all], [C01_sound_all],
    [C04_sentence_sound_all]) and conservativity over Spec.valid ([valid_xvalid], [xvalid_valid]). *)
 From Coq Require Import String List NArith Bool Arith Lia.
-From Parsley Require Import Obs Base Grammar Engine EngineFacts SetMapFacts Spec.
+From Parsley Require Import Obs Base Grammar Engine TermFacts EngineFacts SetMapFacts Spec.
 Import ListNotations.
 Open Scope N_scope.
 
@@ -126,24 +126,24 @@ Proof.
   lia.
 Qed.
 
-(* what a terminal can return: nothing, or exactly one node and no error *)
-Lemma term_parse_cases inp t pos res err :
-  term_parse inp t pos = (res, err) -> res = [] \/ exists n, res = [n] /\ err = None.
-Proof.
-  destruct t as [ch]. unfold term_parse. destruct (byte_at inp pos) as [b|]; [destruct (b =? ch)|];
-    intros H; inversion H; subst; [right; eexists; split; reflexivity|left; reflexivity|left; reflexivity].
-Qed.
+(* what a terminal can return: nothing, or exactly one node and no error: TermFacts.term_parse_cases *)
 
 Lemma term_parse_span inp t pos n :
   in_file inp pos -> term_parse inp t pos = ([n], None) ->
   node_pos n = pos /\ pos <= node_rpos n /\ in_file inp (node_rpos n) /\ span_ok inp n.
 Proof.
-  intros [Hlo Hhi] H. destruct t as [ch]. unfold term_parse in H.
-  destruct (byte_at inp pos) as [b|] eqn:Eb; [|discriminate].
-  destruct (b =? ch) eqn:E; [|discriminate]. apply N.eqb_eq in E. subst b.
-  inversion H; subst n. cbn [node_pos node_rpos span_ok].
-  apply byte_at_bound in Eb as Hb. unfold in_file.
-  split; [reflexivity|]. split; [lia|]. split; [lia|]. split; [reflexivity|exact Eb].
+  intros [Hlo Hhi] H. destruct t as [ch|l].
+  - unfold term_parse in H.
+    destruct (byte_at inp pos) as [b|] eqn:Eb; [|discriminate].
+    destruct (b =? ch) eqn:E; [|discriminate]. apply N.eqb_eq in E. subst b.
+    inversion H; subst n. cbn [node_pos node_rpos span_ok].
+    apply byte_at_bound in Eb as Hb. unfold in_file.
+    split; [reflexivity|]. split; [lia|]. split; [lia|]. split; [reflexivity|exact Eb].
+  - (* a literal: a leaf from pos to a position behind it inside the file (TermFacts, no domain hypothesis) *)
+    apply term_parse_lit_node in H. destruct H as (_ & tok & v & r & -> & Hv & Hle & Hhi' & _).
+    unfold i_fend in Hhi'. cbn [node_pos node_rpos]. unfold in_file.
+    split; [reflexivity|]. split; [exact Hle|]. split; [lia|].
+    destruct v; try discriminate Hv; exact Hle.
 Qed.
 
 Combined Scheme valid_mutind from valid_ind2, valid_seq_ind2.
@@ -528,7 +528,7 @@ End Sound.
 Definition ex_body : pexpr := PAny [PSeq SeqOf INone false None [PRef 0; PTerm (TRune 98)]; PTerm (TRune 97)].
 Definition ex_rules : list pexpr := [PMemo 1 ex_body].
 Definition ex_site (i : N) : option pexpr := if i =? 1 then Some ex_body else None.
-Definition ex_inp : input := {| i_data := [97; 98; 98]; i_offset := 1 |}.
+Definition ex_inp : input := (mk_input [97; 98; 98] 1).
 Definition ex_ab : node := NNonTerm [83; 69; 81] INone [NTerm [97] (VRune 97) 1 2; NTerm [98] (VRune 98) 2 3] 1 3.
 Definition ex_ns : list node :=
   [NNonTerm [83; 69; 81] INone [ex_ab; NTerm [98] (VRune 98) 3 4] 1 4; ex_ab; NTerm [97] (VRune 97) 1 2].
@@ -564,7 +564,7 @@ Qed.
    for an input the grammar does not derive (the language here is {"ax", "b"}; the input is "a") *)
 Definition bad_root : pexpr :=
   PChoice [PSeq SeqOf INone false None [PMemo 1 (PTerm (TRune 97)); PTerm (TRune 120)]; PMemo 1 (PTerm (TRune 98))].
-Definition bad_inp : input := {| i_data := [97]; i_offset := 1 |}.
+Definition bad_inp : input := (mk_input [97] 1).
 Example wf_needed :
   (exists cp err c, run bad_inp [] 20 bad_root = Ok ([NTerm [97] (VRune 97) 1 2], cp, err, c)) /\
   ~ exists d, valid bad_inp [] bad_root 1 d.
@@ -760,18 +760,20 @@ Proof. vm_compute. eexists. reflexivity. Qed.
 (* Part 3b: "the leaves spell the consumed input", literally                              *)
 (* ------------------------------------------------------------------------------------- *)
 
-(* the bytes of the rune leaves of a node, left to right *)
-Fixpoint leaves (n : node) : list N :=
-  match n with
-  | NTerm _ (VRune c) _ _ => [c]
-  | NTerm _ _ _ _ | NEmpty _ | NEnd _ => []
-  | NNonTerm _ _ cs _ _ => (fix go (l : list node) : list N := match l with [] => [] | x :: t => leaves x ++ go t end) cs
-  end.
-Definition leaves_all : list node -> list N :=
-  fix go (l : list node) : list N := match l with [] => [] | x :: t => leaves x ++ go t end.
 (* the bytes of the file between two global positions *)
 Definition slice (inp : input) (a b : N) : list N :=
   firstn (N.to_nat (b - a)) (skipn (N.to_nat (a - i_offset inp)) (i_data inp)).
+(* the bytes of the leaves of a node, left to right: a rune leaf contributes the byte it carries, a
+   literal leaf (Integer, String, ...) its lexeme, i.e. the bytes of the file it spans *)
+Fixpoint leaves (inp : input) (n : node) : list N :=
+  match n with
+  | NTerm _ (VRune c) _ _ => [c]
+  | NTerm _ _ p r => slice inp p r
+  | NEmpty _ | NEnd _ => []
+  | NNonTerm _ _ cs _ _ => (fix go (l : list node) : list N := match l with [] => [] | x :: t => leaves inp x ++ go t end) cs
+  end.
+Definition leaves_all (inp : input) : list node -> list N :=
+  fix go (l : list node) : list N := match l with [] => [] | x :: t => leaves inp x ++ go t end.
 
 Lemma slice_nil inp a : slice inp a a = [].
 Proof. unfold slice. rewrite N.sub_diag. reflexivity. Qed.
@@ -805,10 +807,10 @@ Proof.
   destruct k as [|k]; cbn [nth_error skipn] in *; [inversion H; reflexivity|apply IH; exact H].
 Qed.
 
-Lemma leaves_nonterm t i cs p r : leaves (NNonTerm t i cs p r) = leaves_all cs.
+Lemma leaves_nonterm inp t i cs p r : leaves inp (NNonTerm t i cs p r) = leaves_all inp cs.
 Proof. reflexivity. Qed.
 
-Lemma leaves_handle_result q pos ns : leaves (handle_result q pos ns) = leaves_all ns.
+Lemma leaves_handle_result inp q pos ns : leaves inp (handle_result q pos ns) = leaves_all inp ns.
 Proof.
   destruct ns as [|n [|n2 ns]]; cbn [handle_result]; [reflexivity| |reflexivity].
   destruct (q_single q); [|reflexivity]. cbn [leaves_all]. rewrite app_nil_r. reflexivity.
@@ -819,15 +821,18 @@ Section Spells.
   Variable rules : list pexpr.
 
   Lemma valid_spells_mut :
-    (forall e pos d, valid inp rules e pos d -> in_file inp pos -> leaves (yield d) = slice inp pos (dend d)) /\
+    (forall e pos d, valid inp rules e pos d -> in_file inp pos -> leaves inp (yield d) = slice inp pos (dend d)) /\
     (forall k ps depth pos ds, valid_seq inp rules k ps depth pos ds -> in_file inp pos ->
-       leaves_all (map yield ds) = slice inp pos (seq_end pos ds)).
+       leaves_all inp (map yield ds) = slice inp pos (seq_end pos ds)).
   Proof.
     apply valid_mutind.
-    - intros t pos n H [Hlo Hhi]. unfold dend. cbn [yield]. destruct t as [ch]. unfold term_parse in H.
-      destruct (byte_at inp pos) as [b|] eqn:Eb; [|discriminate].
-      destruct (b =? ch) eqn:E; [|discriminate]. apply N.eqb_eq in E. subst b.
-      inversion H; subst n. cbn [leaves node_rpos]. symmetry. apply slice_one; assumption.
+    - intros t pos n H [Hlo Hhi]. unfold dend. cbn [yield]. destruct t as [ch|l].
+      + unfold term_parse in H.
+        destruct (byte_at inp pos) as [b|] eqn:Eb; [|discriminate].
+        destruct (b =? ch) eqn:E; [|discriminate]. apply N.eqb_eq in E. subst b.
+        inversion H; subst n. cbn [leaves node_rpos]. symmetry. apply slice_one; assumption.
+      + apply term_parse_lit_node in H. destruct H as (_ & tok & v & r & -> & Hv & _).
+        cbn [node_rpos]. destruct v; try discriminate Hv; reflexivity.
     - intros pos _. unfold dend. cbn [yield leaves node_rpos]. rewrite slice_nil. reflexivity.
     - intros pos _ _. unfold dend. cbn [yield leaves node_rpos]. rewrite slice_nil. reflexivity.
     - intros k body pos d _ _ IH Hin. exact (IH Hin).
@@ -855,7 +860,7 @@ Section Spells.
 
   (* the leaves of the yield of a valid derivation are exactly the bytes it consumed *)
   Theorem valid_spells e pos d :
-    in_file inp pos -> valid inp rules e pos d -> leaves (yield d) = slice inp pos (dend d).
+    in_file inp pos -> valid inp rules e pos d -> leaves inp (yield d) = slice inp pos (dend d).
   Proof. intros Hin Hv. exact (proj1 valid_spells_mut e pos d Hv Hin). Qed.
 
   Variable site : N -> option pexpr.
@@ -865,7 +870,7 @@ Section Spells.
   Theorem C01_sound_spells fuel root ns cp err c :
     frag root = true -> wf rules site root ->
     run inp rules fuel root = Ok (ns, cp, err, c) ->
-    forall n, In n ns -> leaves n = slice inp (i_offset inp) (node_rpos n).
+    forall n, In n ns -> leaves inp n = slice inp (i_offset inp) (node_rpos n).
   Proof.
     intros Hf Hw H n Hn.
     destruct (C01_sound inp rules site Hfrag Hwf fuel root ns cp err c Hf Hw H) as [_ Hs].
@@ -878,7 +883,7 @@ Section Spells.
   Theorem C04_sentence_spells fuel root ns c :
     frag root = true -> wf rules site root ->
     parse_top inp rules fuel (sentence root) = Ok (TopNode ns c) ->
-    exists n, ns = [n] /\ leaves n = i_data inp.
+    exists n, ns = [n] /\ leaves inp n = i_data inp.
   Proof.
     intros Hf Hw H.
     destruct (C04_sentence_sound inp rules site Hfrag Hwf fuel root ns c Hf Hw H) as [n [E [_ [_ [_ [d [Hv [Hd Hn]]]]]]]].
@@ -1135,10 +1140,13 @@ Lemma xterm_parse_span inp t pos n :
 Proof.
   intros Hin H. destruct (term_parse_span inp t pos n Hin H) as [H1 [H2 [H3 _]]].
   split; [exact H1|]. split; [exact H2|]. split; [exact H3|].
-  destruct t as [ch]. unfold term_parse in H.
-  destruct (byte_at inp pos) as [b|] eqn:Eb; [|discriminate].
-  destruct (b =? ch) eqn:E; [|discriminate]. apply N.eqb_eq in E. subst b.
-  inversion H; subst n. cbn [xspan_ok]. split; [exact Eb|apply ws_run_refl].
+  destruct t as [ch|l].
+  - unfold term_parse in H.
+    destruct (byte_at inp pos) as [b|] eqn:Eb; [|discriminate].
+    destruct (b =? ch) eqn:E; [|discriminate]. apply N.eqb_eq in E. subst b.
+    inversion H; subst n. cbn [xspan_ok]. split; [exact Eb|apply ws_run_refl].
+  - apply term_parse_lit_node in H. destruct H as (_ & tok & v & r & -> & Hv & Hle & _).
+    destruct v; try discriminate Hv; exact Hle.
 Qed.
 
 Section XValidSpan.
@@ -1725,7 +1733,7 @@ Definition x_rules : list pexpr :=
    PMemo 2 (PName [110] (PRightTrim WsSpaces (PSingle (PSeq SeqOf INone false None [PSuppress (PTerm (TRune 97))]))))].
 Definition x_site (i : N) : option pexpr :=
   match nth_N x_rules (i - 1) with Some (PMemo _ b) => Some b | _ => None end.
-Definition x_inp : input := {| i_data := [97; 32; 43; 32; 97; 32]; i_offset := 5 |}.
+Definition x_inp : input := (mk_input [97; 32; 43; 32; 97; 32] 5).
 Definition x_ns : list node :=
   [NNonTerm [83; 69; 81] INone [NTerm [97] (VRune 97) 5 7; NTerm [43] (VRune 43) 7 8; NTerm [97] (VRune 97) 9 11] 5 11;
    NTerm [97] (VRune 97) 5 7].
@@ -1750,7 +1758,7 @@ Qed.
 (* FINDING (about the property text, not a defect): under a left-trimmed root a Sentence's tree
    does not start at the first byte but at the first non-whitespace byte *)
 Example sentence_lefttrim_start :
-  exists c, parse_top {| i_data := [32; 97]; i_offset := 1 |} [] 20 (sentence (PLeftTrim WsSpaces (PTerm (TRune 97)))) =
+  exists c, parse_top (mk_input [32; 97] 1) [] 20 (sentence (PLeftTrim WsSpaces (PTerm (TRune 97)))) =
             Ok (TopNode [NNonTerm [83; 69; 81] (ISelect 0) [NTerm [97] (VRune 97) 2 3; NEnd 3] 2 3] c).
 Proof. vm_compute. eexists. reflexivity. Qed.
 
@@ -1759,19 +1767,56 @@ Proof. vm_compute. eexists. reflexivity. Qed.
 (* RightTrim returns the operand's nodes UNTRIMMED when the operand also returned an error
    (Optional returns [EMPTY] together with its operand's error) — constructor [XRKeep] *)
 Example righttrim_keeps_with_error :
-  exists cp c, run {| i_data := [32]; i_offset := 1 |} [] 20 (PRightTrim WsSpaces (POpt (PTerm (TRune 97)))) =
+  exists cp c, run (mk_input [32] 1) [] 20 (PRightTrim WsSpaces (POpt (PTerm (TRune 97)))) =
                Ok ([NEmpty 1], cp, Some {| epos := 2; ecause := CNotFound [34; 97; 34] |}, c).
 Proof. vm_compute. eexists _, _. reflexivity. Qed.
 (* RightTrim moves an EMPTY node as a whole: the result STARTS after the whitespace although no
    LeftTrim is involved — hence "ws_run pos (node_pos n)" instead of "node_pos n = pos" *)
 Example righttrim_moves_empty :
-  exists cp c, run {| i_data := [32]; i_offset := 1 |} [] 20 (PRightTrim WsSpaces (POpt (PSuppress (PTerm (TRune 97))))) =
+  exists cp c, run (mk_input [32] 1) [] 20 (PRightTrim WsSpaces (POpt (PSuppress (PTerm (TRune 97))))) =
                Ok ([NEmpty 2], cp, None, c).
 Proof. vm_compute. eexists _, _. reflexivity. Qed.
 (* Single returns the untrimmed child of a right-trimmed one-child sequence: the reader position
    goes back in front of the whitespace ([XSingleU]: the end is the child's, not the parent's) *)
 Example single_undoes_righttrim :
-  exists cp c, run {| i_data := [97; 32]; i_offset := 1 |} [] 20
+  exists cp c, run (mk_input [97; 32] 1) [] 20
                    (PSingle (PRightTrim WsSpaces (PSeq SeqOf INone false None [PTerm (TRune 97)]))) =
                Ok ([NTerm [97] (VRune 97) 1 2], cp, None, c).
 Proof. vm_compute. eexists _, _. reflexivity. Qed.
+
+(* ------------------------------------------------------------------------------------- *)
+(* non-vacuity with LITERAL terminals (terminal.Integer, terminal.Op through Literals.v): the
+   left-recursive sum  S -> S "+" INTEGER | INTEGER  on "1+23" at offset 1; C01_sound and
+   C01_sound_spells apply as they are (no domain hypothesis is needed for soundness)        *)
+Definition lx_body : pexpr :=
+  PAny [PSeq SeqOf INone false None [PRef 0; PTerm (TLit (LOp [43])); PTerm (TLit LInteger)]; PTerm (TLit LInteger)].
+Definition lx_rules : list pexpr := [PMemo 1 lx_body].
+Definition lx_site (i : N) : option pexpr := if i =? 1 then Some lx_body else None.
+Definition lx_inp : input := mk_input [49; 43; 50; 51] 1.          (* 1+23 *)
+Definition lx_one : node := NTerm [73; 78; 84; 69; 71; 69; 82] (VInt (BinNums.Zpos 1%positive)) 1 2.
+Definition lx_sum : node :=
+  NNonTerm [83; 69; 81] INone [lx_one; NTerm [43] (VStr [43]) 2 3; NTerm [73; 78; 84; 69; 71; 69; 82] (VInt (BinNums.Zpos 23%positive)) 3 5] 1 5.
+Lemma lx_frag_rules : frag_rules lx_rules.
+Proof.
+  intros k body H. unfold nth_N, lx_rules in H. destruct (N.to_nat k) as [|[|n]]; cbn [nth_error] in H; try discriminate.
+  inversion H; subst. reflexivity.
+Qed.
+Lemma lx_wf_rules : wf_rules lx_rules lx_site.
+Proof.
+  intros k body H. unfold nth_N, lx_rules in H. destruct (N.to_nat k) as [|[|n]]; cbn [nth_error] in H; try discriminate.
+  inversion H; subst. cbn. split; [reflexivity|]. split; [|tauto]. split; [reflexivity|tauto].
+Qed.
+Lemma lx_run : exists cp err c, run lx_inp lx_rules 100 (PRef 0) = Ok ([lx_sum; lx_one], cp, err, c).
+Proof. vm_compute. eexists _, _, _. reflexivity. Qed.
+Example C01_sound_literal_example :
+  (exists cp err c, run lx_inp lx_rules 100 (PRef 0) = Ok ([lx_sum; lx_one], cp, err, c)) /\
+  (forall n, In n [lx_sum; lx_one] ->
+     (exists d, valid lx_inp lx_rules (PRef 0) 1 d /\ yield d = n) /\
+     node_pos n = 1 /\ 1 <= node_rpos n /\ in_file lx_inp (node_rpos n) /\ span_ok lx_inp n) /\
+  leaves lx_inp lx_sum = [49; 43; 50; 51].
+Proof.
+  split; [exact lx_run|]. destruct lx_run as [cp [err [c H]]]. split.
+  - exact (proj2 (C01_sound lx_inp lx_rules lx_site lx_frag_rules lx_wf_rules 100 (PRef 0) _ cp err c
+                    eq_refl (eq_refl : wf lx_rules lx_site (PRef 0)) H)).
+  - reflexivity.
+Qed.
